@@ -189,6 +189,14 @@ impl Ldap {
         next_ldap_id
     }
 
+    // An operation refused before it is sent still counts as the "next operation" for
+    // the one-shot modifiers.
+    fn discard_modifiers(&mut self) {
+        self.controls = None;
+        self.timeout = None;
+        self.search_opts = None;
+    }
+
     pub(crate) async fn op_call(
         &mut self,
         op: LdapOp,
@@ -613,6 +621,7 @@ impl Ldap {
             ],
         });
         if any_empty {
+            self.discard_modifiers();
             return Err(LdapError::AddNoValues);
         }
         Ok(self.op_call(LdapOp::Single, req).await?.0)
@@ -734,6 +743,7 @@ impl Ldap {
             ],
         });
         if any_add_empty {
+            self.discard_modifiers();
             return Err(LdapError::AddNoValues);
         }
         Ok(self.op_call(LdapOp::Single, req).await?.0)
